@@ -25,6 +25,8 @@
                                            W = (p P + w C)/(p+w), every w >= 0
            three_gauss_1d_model            the same in the variables of the model: s = w/(p+w), variance v(1-s),
                                            displacements PA - s PC, PB - s PC, exponent p s (P-C)^2
+           gaussian_at_fixed_u_raw         gint3 (phi_a phi_b e^{-u^2|r-C|^2}) = (PI/q)^{3/2} e^{-mu|AB|^2} e^{-(p u^2/q)|PC|^2}
+                                           prod_axes S3(1/(2q); W-A, W-B; 0,0,a_i,b_i),  q = p+u^2, W = (p P + u^2 C)/q
            gaussian_at_fixed_u             gint3 (coulomb_kernel u) (Ju u),
                                            Ju u = (2/sqrt PI) (PI/q) sqrt(PI/q) e^{-mu|AB|^2} e^{-p s|PC|^2}
                                                   prod_axes S3(v(1-s); PA - s PC, PB - s PC; 0,0,a_i,b_i),  q = p+u^2, s = u^2/q
@@ -41,6 +43,8 @@
            coulomb_prim_is_prim_val_modulo_exchange_HInt
                                            the same with the integrand WRITTEN as the u-integral, HInt (fun u => coulomb_kernel u r)
                                            (equal to coulomb_integrand off the single point r = C: coulomb_HInt_integrand_eq)
+           exchange_equivalent_to_conclusion
+                                           the hypothesis is exactly as strong as the conclusion (nothing beyond (ii) is assumed)
 
    WHAT REMAINS TRUSTED FOR (B2) AFTER THIS FILE — only (ii), for this explicit continuous kernel:
         exchange_holds K F  :=  forall J L, (forall u, 0 <= u -> gint3 (K u) (J u)) -> hint J L -> gint3 F L
@@ -357,6 +361,52 @@ Proof.
     assert (E2 : exp (- (p * ((Px - Cx) * (Px - Cx) + (Py - Cy) * (Py - Cy) + (Pz - Cz) * (Pz - Cz))) * s)
                  = exp (- (p * s) * (Px - Cx) ^ 2) * exp (- (p * s) * (Py - Cy) ^ 2)
                    * exp (- (p * s) * (Pz - Cz) ^ 2)).
+    { rewrite <- !exp_plus. f_equal. ring. }
+    assert (E3 : PI / q = sqrt (PI / q) * sqrt (PI / q)).
+    { symmetry. apply sqrt_sqrt. apply Rlt_le, Rdiv_lt_0_compat; [apply PI_RGT_0 | exact Hq]. }
+    set (r := sqrt (PI / q)) in *.
+    rewrite E1, E2, E3. ring.
+Qed.
+
+(* the same statement in the raw variables (no prefactor 2/sqrt PI): combined exponent q = p + u^2,
+   combined centre W = (p P + u^2 C)/q, variance 1/(2q) *)
+Theorem gaussian_at_fixed_u_raw (Cx Cy Cz Ax Ay Az Bx By Bz al be : R) (ca cb : Shell.comp) (u : R) :
+  0 < al -> 0 < be ->
+  let p := al + be in
+  let Px := (al * Ax + be * Bx) / p in let Py := (al * Ay + be * By) / p in
+  let Pz := (al * Az + be * Bz) / p in
+  let mu := al * be / p in
+  let q := p + u ^ 2 in
+  let Wx := (p * Px + u ^ 2 * Cx) / q in let Wy := (p * Py + u ^ 2 * Cy) / q in
+  let Wz := (p * Pz + u ^ 2 * Cz) / q in
+  gint3 (fun x y z => cprim al Ax Ay Az ca x y z * cprim be Bx By Bz cb x y z
+                      * exp (- u ^ 2 * ((x - Cx) ^ 2 + (y - Cy) ^ 2 + (z - Cz) ^ 2)))
+        (PI / q * sqrt (PI / q)
+         * exp (- mu * ((Ax - Bx) ^ 2 + (Ay - By) ^ 2 + (Az - Bz) ^ 2))
+         * exp (- (p * u ^ 2 / q) * ((Px - Cx) ^ 2 + (Py - Cy) ^ 2 + (Pz - Cz) ^ 2))
+         * (S3 RKd (vR q) (Wx - Ax) (Wx - Bx) 0 0 0 (cx ca) (cx cb)
+            * S3 RKd (vR q) (Wy - Ay) (Wy - By) 0 0 0 (cy ca) (cy cb)
+            * S3 RKd (vR q) (Wz - Az) (Wz - Bz) 0 0 0 (cz ca) (cz cb))).
+Proof.
+  intros Ha Hb p Px Py Pz mu q Wx Wy Wz. assert (Hw : 0 <= u ^ 2) by apply pow2_ge_0.
+  pose proof (three_gauss_1d al be (u ^ 2) Ax Bx Cx (cx ca) (cx cb) Ha Hb Hw) as Hx.
+  pose proof (three_gauss_1d al be (u ^ 2) Ay By Cy (cy ca) (cy cb) Ha Hb Hw) as Hy.
+  pose proof (three_gauss_1d al be (u ^ 2) Az Bz Cz (cz ca) (cz cb) Ha Hb Hw) as Hz.
+  cbv zeta in Hx, Hy, Hz.
+  fold p in Hx, Hy, Hz. fold q in Hx, Hy, Hz. fold mu in Hx, Hy, Hz.
+  fold Px in Hx. fold Py in Hy. fold Pz in Hz. fold Wx in Hx. fold Wy in Hy. fold Wz in Hz.
+  assert (Hq : 0 < q) by (unfold q, p; lra).
+  refine (gint3_ext _ _ _ _ _ _ (gint3_prod _ _ _ _ _ _ Hx Hy Hz)).
+  - intros x y z. rewrite !cprim_split. unfold cg1.
+    replace (- u ^ 2 * ((x - Cx) ^ 2 + (y - Cy) ^ 2 + (z - Cz) ^ 2))
+      with (- u ^ 2 * (x - Cx) ^ 2 + - u ^ 2 * (y - Cy) ^ 2 + - u ^ 2 * (z - Cz) ^ 2) by ring.
+    rewrite !exp_plus. ring.
+  - assert (E1 : exp (- mu * ((Ax - Bx) ^ 2 + (Ay - By) ^ 2 + (Az - Bz) ^ 2))
+                 = exp (- mu * (Ax - Bx) ^ 2) * exp (- mu * (Ay - By) ^ 2) * exp (- mu * (Az - Bz) ^ 2)).
+    { rewrite <- !exp_plus. f_equal. ring. }
+    assert (E2 : exp (- (p * u ^ 2 / q) * ((Px - Cx) ^ 2 + (Py - Cy) ^ 2 + (Pz - Cz) ^ 2))
+                 = exp (- (p * u ^ 2 / q) * (Px - Cx) ^ 2) * exp (- (p * u ^ 2 / q) * (Py - Cy) ^ 2)
+                   * exp (- (p * u ^ 2 / q) * (Pz - Cz) ^ 2)).
     { rewrite <- !exp_plus. f_equal. ring. }
     assert (E3 : PI / q = sqrt (PI / q) * sqrt (PI / q)).
     { symmetry. apply sqrt_sqrt. apply Rlt_le, Rdiv_lt_0_compat; [apply PI_RGT_0 | exact Hq]. }
